@@ -16,8 +16,8 @@ MANIFEST = {
     "technique": "Lean 4 proof (induction over the token walk) + translator + differential tie per statement + structural tree comparison oracle",
 }
 
-RULE = ("fixed regression mini-corpus corpus/C14 (35 files, one rare construct each) first; file level: all .go files of the tree (quick: sample) + GOROOT/src sample + generated type-checked programs (generics, labels, goto, select, "
-        "type switches, struct tags, iota), each also re-laid-out with random non-gofmt layout (4 profiles), with single blanks before ( [ {, and with literals re-spelt (same value: prefixes, separators, hex floats, escapes, raw strings); "
+RULE = ("fixed regression mini-corpus corpus/C14 (47 files, one rare construct each) first; file level: all .go files of the tree (quick: sample) + GOROOT/src sample + generated type-checked programs (generics, labels, goto, select, types of every form in every expression position, non-ASCII identifiers, "
+        "type switches, struct tags, iota), each also re-laid-out with random non-gofmt layout (4 profiles; all file endings: no final newline, comment at EOF, CRLF, BOM; comments at line ends), with single blanks before ( [ {, and with literals re-spelt (same value: prefixes, separators, hex floats, escapes, raw strings); "
         "statement level (cases): sampled simple statements of those texts with their context (list/header), tokens from the real scanner; "
         "non-trivial = distinct statement token list")
 
